@@ -118,6 +118,13 @@ CLAIMED["C18"] = dict(
     note="Asynchronous server only. The threaded standalone servers (ThreadsPortal, threading.Event hand-offs between OS threads) are NOT claimed: no installed engine makes thread interleavings symbolic. server_close() refused by the documented set-up guard (BusyResourceError) is treated as a refusal, not as a close.",
 )
 
+CLAIMED["C17"] = dict(
+    text="Bounded symbolic execution of the real AsyncTCPNetworkServer and AsyncUDPNetworkServer (client initializers, exception fences, _ClientContext.__aexit__, lowlevel handler builders, task-group wiring) on a deterministic loop with in-memory listeners: one faulty client raises a solver-chosen exception class (plain, group, ConnectionError, ClientClosedError, TimeoutError, mixed groups) at a shard-chosen hook position (on_connection before/after an await, handle before the first yield / after a request / while handling a thrown parse error / re-raising it / yielding an invalid timeout, on_disconnection) or is reset right after accept, while a healthy client's traffic is interleaved by a solver-chosen schedule. Asserted: the server task keeps running, nothing reaches the event loop, the healthy client gets every response; TCP: faulty connection closed, on_disconnection ran iff on_connection completed; UDP: a later datagram of the faulty address is handled by a fresh generator.",
+    design="4/C17",
+    technique="symbolic execution of real code (CrossHair+z3): exception class and schedule as solver variables on a deterministic asyncio loop",
+    note="Exception subclasses and groups only (KeyboardInterrupt/SystemExit outside); TLS handshake failures outside (real OpenSSL); kernel RST modelled as ConnectionResetError on first read.",
+)
+
 NOT_APPLICABLE = {
     "C08": "TLS byte-transparency/encryption is decided inside OpenSSL's record layer (C code, cryptography): it cannot be executed symbolically by any installed engine; stubbing it would verify the stub, and running real OpenSSL realises every symbolic size (degenerates to concrete enumeration). See DESIGN.md section 5.",
     "C09": "Whether a cut at a byte offset of a real ciphertext stream yields SSLEOFError / SSLZeroReturnError / a protocol error is OpenSSL's partial-record parsing, not encodable; the EasyNetwork part is a three-way exception mapping. See DESIGN.md section 5.",
